@@ -40,6 +40,8 @@ MonShipped ==
     /\ Check("C17", "EveryFeederStartsFromItsURL", Ev.feederfailed = <<>> /\ Ev.feederpanicked = <<>>)
     /\ Check("C17", "MapAndFeedersDescribeTheSameLogs", SeqToSet(Ev.feederids) \subseteq SeqToSet(Ev.mapids) /\ SeqToSet(Ev.mapids) = SeqToSet(Ev.logids))
     /\ Check("C17", "MainStarts", Ev.main = "serving")
+    \* ... and inside Main the feeder of every entry that has one is actually RUNNING from its URL (with all the cores of this machine, with two, with one)
+    /\ Check("C17", "EveryConfiguredFeederIsRunning", Ev.unpolled = <<>>)
 
 \* generated configurations: the real Main ends the way the start-up machine says
 MonGenerated ==
